@@ -67,6 +67,7 @@ def gen_case(rng, params):
 from chancommon import KIND, CASE_WALL, run_impl, shrink_candidates, classify_common, model_request, spec_line  # noqa: E402
 
 SPECS = ["C02"]
+AUX = ["C02G"]   # prompts behind a look-behind assertion (\\b, ^ under MULTILINE, (?<=..), (?<!..)): real Channel vs GuardPrompt model
 THEOREMS = ["C02.rupLoop_spec", "C02.readUntilPrompt_spec", "C02.rup_spec", "C02.case_spec", "ChanCase.keeps", "C02.rup_fragmentation", "C02.rup_fragmentation_gen", "C02.promptEnd_anchored_iff", "Re.M_sound", "Re.M_complete", "Re.L_maxWidth", "Re.search_sound", "Re.search_complete"]
 LEAN_MODULES = ["TbotVerif.Props.ChanCase", "TbotVerif.Props.C02Extra"]
 QUICK_N, THOROUGH_N = 4000, 60000
